@@ -242,6 +242,35 @@ func checkCase(c *Case) (err error) {
 			return fmt.Errorf("%srequest %s (route with ignored trailing slash): %w", desc, tc.path, err)
 		}
 	}
+	// one option value applied to several routes and again on Update: options are values, applying one does not change it
+	shared := fox.WithMiddleware(tracer("s0"), tracer("s1"))
+	for _, step := range []struct{ op, pat, h string }{{"handle", "/sh/a", "sha"}, {"handle", "/sh/b/{p}", "shb"}, {"update", "/sh/a", "sha2"}, {"newroute", "/sh/c", "shc"}, {"update", "/sh/b/{p}", "shb2"}} {
+		var rte *fox.Route
+		var err error
+		switch step.op {
+		case "handle":
+			rte, err = f.Handle("GET", step.pat, endpoint(step.h, 200), shared)
+		case "update":
+			rte, err = f.Update("GET", step.pat, endpoint(step.h, 200), shared)
+		default:
+			rte, err = f.NewRoute(step.pat, endpoint(step.h, 200), shared)
+		}
+		if err != nil {
+			return fmt.Errorf("%s%s %s with a shared option value: %v", desc, step.op, step.pat, err)
+		}
+		req, tr := request("GET", strings.Replace(step.pat, "{p}", "x", 1))
+		cc := fox.NewTestContextOnly(httptest.NewRecorder(), req)
+		rte.HandleMiddleware(cc)
+		if err := expectTrace(*tr, []string{"s0", "s1", "H:" + step.h}); err != nil {
+			return fmt.Errorf("%s%s %s with an option value already used for other routes, Route.HandleMiddleware: %w", desc, step.op, step.pat, err)
+		}
+		if step.op != "newroute" {
+			want := append(c.globalsFor(fox.RouteHandler), "s0", "s1", "H:"+step.h)
+			if err := expectTrace(serve(f, "GET", strings.Replace(step.pat, "{p}", "x", 1)), want); err != nil {
+				return fmt.Errorf("%s%s %s with an option value already used for other routes, served: %w", desc, step.op, step.pat, err)
+			}
+		}
+	}
 	special := []struct {
 		name, method, path string
 		scope              fox.HandlerScope
